@@ -1,0 +1,37 @@
+//go:build verif
+
+// Contracts checked by /verif/gowp. This file contains comments only and is compiled only
+// with -tags verif.
+
+package claim
+
+// The claim reconciler:
+//  C08  the claim's finalizer is removed only once its XR is gone or its deletion was issued
+//       (and, with Foreground deletion, only once the XR no longer exists);
+//  C06  nothing is written to, or deleted from, an XR that is bound to a different claim;
+//  C05  the claim is reported Ready only after the XR it is bound to was observed Ready.
+
+//@ func (*claim.Reconciler).Reconcile
+//@ props C08 C06 C05
+//@ ghost xrDeleteIssued bool = false
+//@ let $cm = result claim.New
+//@ let $xr = result composite.New
+//@ site (client.Writer).Delete(_, _, $o, $do...)
+//@   assert [C08:only-own-xr-deleted] $o == $xr && meta.WasDeleted($cm) && meta.WasCreated($xr)
+//@   assert [C06:bound-before-delete] !(meta.WasCreated($xr) && $xr.GetClaimReference() != nil && !cmp.Equal($cm.GetReference(), $xr.GetClaimReference()))
+//@   update xrDeleteIssued = resource.IgnoreNotFound(err) == nil
+//@ site (resource.Finalizer).RemoveFinalizer(_, _, $o)
+//@   assert [C08:finalizer-only-when-deleted] $o == $cm && meta.WasDeleted($cm)
+//@   assert [C08:finalizer-after-xr-delete] !meta.WasCreated($xr) || xrDeleteIssued
+//@   assert [C08:foreground-waits-for-xr] ($cm.GetCompositeDeletePolicy() != nil && *$cm.GetCompositeDeletePolicy() == "Foreground") ==> !meta.WasCreated($xr)
+//@ site (claim.ManagedFieldsUpgrader).Upgrade(_, _, $o, _)
+//@   assert [C06:bound-before-upgrade] !(meta.WasCreated($xr) && $xr.GetClaimReference() != nil && !cmp.Equal($cm.GetReference(), $xr.GetClaimReference()))
+//@ site (claim.CompositeSyncer).Sync(_, _, $c, $x)
+//@   assert [C06:bound-before-sync] $c == $cm && $x == $xr && !(meta.WasCreated($xr) && $xr.GetClaimReference() != nil && !cmp.Equal($cm.GetReference(), $xr.GetClaimReference()))
+//@   assert [C08:no-sync-while-deleting] !meta.WasDeleted($cm)
+//@ site (claim.ConnectionPropagator).PropagateConnection(_, _, $to, $from)
+//@   assert [C06:bound-before-propagate] $to == $cm && $from == $xr && cmp.Equal($cm.GetReference(), $xr.GetClaimReference())
+//@   assert [C05:propagate-only-ready] resource.IsConditionTrue($xr.GetCondition(xpv1.TypeReady))
+//@ site (*claim.Unstructured).SetConditions(_, $cs...)
+//@   assert [C05:claim-ready-only-if-xr-ready] forall i :: 0 <= i && i < len($cs) && $cs[i].Type == "Ready" && $cs[i].Status == "True" && $cs[i].Reason == "Available"
+//@        ==> resource.IsConditionTrue($xr.GetCondition(xpv1.TypeReady))
